@@ -472,6 +472,129 @@ theorem C07.simplex_threshold_feasible (r : K) (x : List K) (hx : x ≠ []) (hr 
     rw [sumK_eq_sum, ← (hperm.map _).sum_eq, ← e1]
     exact key
 
+/-- KKT sufficiency for `proj_l1` (thresholded branch, unweighted / constant-weight inner
+product): if `τ ≥ 0` and `Σ max(|x_i| − τ, 0) = r`, then `p_i = max(|x_i| − τ, 0)·sign(x_i)` has
+`Σ|p_i| = r` and satisfies the projection inequality against every `z` with `Σ|z_i| ≤ r`. -/
+theorem C07.l1ball_kkt_sufficient {ι : Type} (I : Finset ι) (x z : ι → K) (tau r : K)
+    (ht : 0 ≤ tau) (hp : ∑ i ∈ I, maxK (absK (x i) - tau) 0 = r)
+    (hz : ∑ i ∈ I, |z i| ≤ r) :
+    (∑ i ∈ I, |maxK (absK (x i) - tau) 0 * signK (x i)| = r) ∧
+    ∑ i ∈ I, (x i - maxK (absK (x i) - tau) 0 * signK (x i))
+        * (z i - maxK (absK (x i) - tau) 0 * signK (x i)) ≤ 0 := by
+  have habs : ∀ i ∈ I, |maxK (absK (x i) - tau) 0 * signK (x i)| = maxK (absK (x i) - tau) 0 := by
+    intro i _
+    rcases l1entry_cases (x i) tau ht with ⟨_, h2, h3⟩ | ⟨h1, h2, h3⟩
+    · rw [h3, h2, abs_zero]
+    · rcases h3 with ⟨hx, h3⟩ | ⟨hx, h3⟩
+      · rw [h3, h2, abs_of_pos hx, abs_of_nonneg]; rw [abs_of_pos hx] at h1; linarith
+      · rw [h3, h2, abs_of_neg hx, abs_of_nonpos]; ring; rw [abs_of_neg hx] at h1; linarith
+  refine ⟨by rw [Finset.sum_congr rfl habs, hp], ?_⟩
+  have key : ∀ i ∈ I, (x i - maxK (absK (x i) - tau) 0 * signK (x i))
+      * (z i - maxK (absK (x i) - tau) 0 * signK (x i))
+      ≤ tau * (|z i| - maxK (absK (x i) - tau) 0) := by
+    intro i _
+    have hz1 := le_abs_self (z i)
+    have hz2 := neg_abs_le (z i)
+    rcases l1entry_cases (x i) tau ht with ⟨h1, h2, h3⟩ | ⟨h1, h2, h3⟩
+    · rw [h3, h2]
+      have hx := abs_le.mp h1
+      have : x i * z i ≤ tau * |z i| := by
+        calc x i * z i ≤ |x i * z i| := le_abs_self _
+          _ = |x i| * |z i| := abs_mul _ _
+          _ ≤ tau * |z i| := by gcongr
+      linarith
+    · rcases h3 with ⟨hx, h3⟩ | ⟨hx, h3⟩
+      · rw [h3, h2, abs_of_pos hx]; nlinarith
+      · rw [h3, h2, abs_of_neg hx]; nlinarith
+  calc _ ≤ ∑ i ∈ I, tau * (|z i| - maxK (absK (x i) - tau) 0) := Finset.sum_le_sum key
+    _ = tau * (∑ i ∈ I, |z i| - r) := by rw [← Finset.mul_sum, Finset.sum_sub_distrib, hp]
+    _ ≤ 0 := mul_nonpos_of_nonneg_of_nonpos ht (by linarith)
+
+/-- `proximal_linfty` (thresholded branch; `ρ = σ / w` for the constant weight `w`): with
+`q_i = max(|x_i| − τ, 0)·sign(x_i)` the projection of `x` onto the l1-ball of radius `ρ`, the
+point `p = −q + x` has sup-norm at most `τ` (equal to `τ` when `ρ > 0`) and satisfies the
+variational inequality of `prox_{ρ‖·‖_∞}`: `ρ τ + Σ(x_i − p_i)(z_i − p_i) ≤ ρ M` for every `z`
+and every bound `M ≥ max|z_i|`. (Multiplying by `w` gives the inequality in the weighted space.) -/
+theorem C07.linf_vi {ι : Type} (I : Finset ι) (x z : ι → K) (tau rho M : K)
+    (ht : 0 ≤ tau) (hp : ∑ i ∈ I, maxK (absK (x i) - tau) 0 = rho)
+    (hz : ∀ i ∈ I, |z i| ≤ M) :
+    (∀ i ∈ I, |-(maxK (absK (x i) - tau) 0 * signK (x i)) + x i| ≤ tau) ∧
+    (0 < rho → ∃ i ∈ I, |-(maxK (absK (x i) - tau) 0 * signK (x i)) + x i| = tau) ∧
+    rho * tau + ∑ i ∈ I, (x i - (-(maxK (absK (x i) - tau) 0 * signK (x i)) + x i))
+        * (z i - (-(maxK (absK (x i) - tau) 0 * signK (x i)) + x i)) ≤ rho * M := by
+  refine ⟨?_, ?_, ?_⟩
+  · intro i _
+    rcases l1entry_cases (x i) tau ht with ⟨h1, _, h3⟩ | ⟨h1, _, h3⟩
+    · rw [h3]; simpa using h1
+    · rcases h3 with ⟨hx, h3⟩ | ⟨hx, h3⟩
+      · rw [h3]; ring_nf; rw [abs_of_nonneg ht]
+      · rw [h3]; ring_nf; rw [abs_neg, abs_of_nonneg ht]
+  · intro hrho
+    by_contra hc
+    simp only [not_exists, not_and] at hc
+    have : ∑ i ∈ I, maxK (absK (x i) - tau) 0 = 0 := by
+      apply Finset.sum_eq_zero
+      intro i hi
+      rcases l1entry_cases (x i) tau ht with ⟨_, h2, _⟩ | ⟨h1, _, h3⟩
+      · exact h2
+      · exfalso
+        apply hc i hi
+        rcases h3 with ⟨hx, h3⟩ | ⟨hx, h3⟩
+        · rw [h3]; ring_nf; rw [abs_of_nonneg ht]
+        · rw [h3]; ring_nf; rw [abs_neg, abs_of_nonneg ht]
+    linarith
+  · have key : ∀ i ∈ I, (x i - (-(maxK (absK (x i) - tau) 0 * signK (x i)) + x i))
+        * (z i - (-(maxK (absK (x i) - tau) 0 * signK (x i)) + x i))
+        ≤ maxK (absK (x i) - tau) 0 * M - maxK (absK (x i) - tau) 0 * tau := by
+      intro i hi
+      have hzi := abs_le.mp (hz i hi)
+      rcases l1entry_cases (x i) tau ht with ⟨h1, h2, h3⟩ | ⟨h1, h2, h3⟩
+      · rw [h3, h2]; simp
+      · rcases h3 with ⟨hx, h3⟩ | ⟨hx, h3⟩
+        · rw [h3, h2, abs_of_pos hx]; rw [abs_of_pos hx] at h1; nlinarith
+        · rw [h3, h2, abs_of_neg hx]; rw [abs_of_neg hx] at h1; nlinarith
+    have := Finset.sum_le_sum key
+    rw [Finset.sum_sub_distrib, ← Finset.sum_mul, ← Finset.sum_mul, hp] at this
+    linarith
+
+/-- `proximal_linfty`, branch `Σ|x_i| ≤ ρ` (`proj_l1` returns `x`, the proximal point is 0). -/
+theorem C07.linf_vi_small {ι : Type} (I : Finset ι) (x z : ι → K) (rho M : K)
+    (hx : ∑ i ∈ I, |x i| ≤ rho) (hM : 0 ≤ M) (hz : ∀ i ∈ I, |z i| ≤ M) :
+    rho * 0 + ∑ i ∈ I, (x i - (-(x i) + x i)) * (z i - (-(x i) + x i)) ≤ rho * M := by
+  have key : ∀ i ∈ I, (x i - (-(x i) + x i)) * (z i - (-(x i) + x i)) ≤ |x i| * M := by
+    intro i hi
+    have : x i * z i ≤ |x i| * M := by
+      calc x i * z i ≤ |x i * z i| := le_abs_self _
+        _ = |x i| * |z i| := abs_mul _ _
+        _ ≤ |x i| * M := by gcongr; exact hz i hi
+    simpa using this
+  have := Finset.sum_le_sum key
+  rw [← Finset.sum_mul] at this
+  nlinarith
+
+/-- `proj_l1`, list level, every input: when `Σ|x_i| > r ≥ 0` the executable model finds a
+threshold `τ ≥ 0` with `Σ max(|x_i| − τ, 0) = r` — the hypotheses of `C07.l1ball_kkt_sufficient`
+and `C07.linf_vi` always hold on the branch where the code thresholds. -/
+theorem C07.projL1_threshold (r : K) (x : List K) (hr : 0 ≤ r)
+    (hbig : ¬ sumK (x.map absK) ≤ r) :
+    ∃ tau, 0 ≤ tau ∧ simplexTau r (x.map absK) = some tau ∧
+      sumK ((x.map absK).map fun u => maxK (u - tau) 0) = r := by
+  have hx : x.map absK ≠ [] := by
+    intro h
+    rw [h] at hbig
+    exact hbig (by simpa [sumK] using hr)
+  obtain ⟨tau, h1, h2⟩ := C07.simplex_threshold_feasible r (x.map absK) hx hr
+  refine ⟨tau, ?_, h1, h2⟩
+  by_contra hneg
+  have hneg' : tau < 0 := not_le.mp hneg
+  have hle : ((x.map absK).map id).sum ≤ ((x.map absK).map fun u => maxK (u - tau) 0).sum := by
+    apply List.sum_le_sum
+    intro u _
+    rw [maxK_eq]
+    exact le_trans (by simp only [id]; linarith) (le_max_left _ _)
+  rw [List.map_id, ← sumK_eq_sum, ← sumK_eq_sum, h2] at hle
+  exact hbig hle
+
 /-! Non-vacuity of the lifting theorems on concrete data. -/
 example : ∑ k ∈ Finset.range 3, maxK (uEx k
     - 1 / ((2 : ℕ) : ℚ) * (∑ k ∈ Finset.range 2, uEx k - 1)) 0 = 1 := by
@@ -493,6 +616,15 @@ example : ∑ i : Fin 3, ((![1, 1/2, -1] : Fin 3 → ℚ) i - maxK ((![1, 1/2, -
     (by simp [Fin.sum_univ_three, maxK]; norm_num)
     (by intro i _; fin_cases i <;> simp)
     (by simp [Fin.sum_univ_three]; norm_num)).2
+
+/-- Non-vacuity: the full simplex theorem and the `proj_l1` threshold on concrete lists. -/
+example : ∃ tau, simplexTau (1 : ℚ) [1 / 2, -1, 1] = some tau ∧
+    sumK ([1 / 2, -1, 1].map fun xi => maxK (xi - tau) 0) = (1 : ℚ) :=
+  C07.simplex_threshold_feasible 1 _ (by simp) (by norm_num)
+
+example : ∃ tau : ℚ, 0 ≤ tau ∧ simplexTau 1 ([3, -1 / 2].map absK) = some tau ∧
+    sumK (([3, -1 / 2].map absK).map fun u => maxK (u - tau) 0) = (1 : ℚ) :=
+  C07.projL1_threshold 1 [3, -1 / 2] (by norm_num) (by decide +kernel)
 
 end Lift
 
